@@ -223,7 +223,8 @@ class Run:
         if threading.current_thread() is threading.main_thread() and hasattr(signal, "setitimer") \
                 and signal.getitimer(signal.ITIMER_REAL)[0] == 0.0:
             signal.signal(signal.SIGALRM, _on_guard_timeout)
-            signal.setitimer(signal.ITIMER_REAL, GUARD_TIMEOUT_S)
+            # once a call has hung in this worker, later ones get a short leash (hangs come in series)
+            signal.setitimer(signal.ITIMER_REAL, GUARD_TIMEOUT_S if not _TIMEOUTS_SEEN[0] else GUARD_TIMEOUT_AFTER_S)
             armed = True
         try:
             yield
@@ -260,10 +261,14 @@ class GuardTimeout(Exception):
 
 
 GUARD_TIMEOUT_S = float(os.environ.get("RLSIM_GUARD_TIMEOUT_S", "300"))
+GUARD_TIMEOUT_AFTER_S = 30.0
+_TIMEOUTS_SEEN = [0]
 
 
 def _on_guard_timeout(signum, frame):
-    raise GuardTimeout(f"the call did not return within {GUARD_TIMEOUT_S:.0f} s")
+    lim = GUARD_TIMEOUT_S if not _TIMEOUTS_SEEN[0] else GUARD_TIMEOUT_AFTER_S
+    _TIMEOUTS_SEEN[0] += 1
+    raise GuardTimeout(f"the call did not return within {lim:.0f} s")
 
 
 @contextlib.contextmanager
